@@ -100,6 +100,19 @@ func (d *Data) initMemoryDB(versions []string) error {
 	return nil
 }
 
+// forgetField takes one annotation's use of a field out of the field tables.  A field that no
+// annotation uses any more is dropped from them, as a reload from the store would not list it.
+// Expects the caller to hold the write lock.
+func (mdb *memdb) forgetField(field string) {
+	mdb.fields[field]--
+	if mdb.fields[field] <= 0 {
+		delete(mdb.fields, field)
+		if strings.HasSuffix(field, "_time") {
+			delete(mdb.fieldTimes, field[:len(field)-5])
+		}
+	}
+}
+
 // initialize the fieldTimes map for an already loaded memdb.
 func (d *Data) initFieldTimes(mdb *memdb) {
 	for _, neuronjson := range mdb.data {
